@@ -973,7 +973,47 @@ def _result(x: Any | Future) -> Any:
 
 
 def _result_async(task: Future, loop: asyncio.AbstractEventLoop) -> asyncio.Future:
-    return asyncio.wrap_future(task, loop=loop)
+    """Like `asyncio.wrap_future`, but the exception of `task` reaches the awaiting coroutine unchanged.
+
+    `asyncio.wrap_future` rebuilds `TimeoutError`, `concurrent.futures.CancelledError` and
+    `concurrent.futures.InvalidStateError` from their args (another type, the notes are lost) and
+    cannot carry a `StopIteration` at all (its callback fails and the awaiting coroutine never
+    resumes). Here the very exception object is handed over; a `StopIteration`, which no coroutine
+    can raise (PEP 479), becomes a `RuntimeError` that has it as `__cause__` and keeps its notes.
+    """
+    if not isinstance(task, Future) or asyncio.isfuture(task):
+        return asyncio.wrap_future(task, loop=loop)
+    dest = loop.create_future()
+
+    def _set_state() -> None:
+        if dest.done():  # cancelled in the meantime
+            return
+        if task.cancelled():
+            dest.cancel()
+            return
+        exc = task.exception()
+        if exc is None:
+            dest.set_result(task.result())
+            return
+        if isinstance(exc, StopIteration):
+            new = RuntimeError("user function raised StopIteration")
+            new.__cause__ = exc
+            for note in getattr(exc, "__notes__", ()):
+                new.add_note(note)
+            exc = new
+        dest.set_exception(exc)
+
+    def _task_done(_: Future) -> None:
+        if not loop.is_closed():
+            loop.call_soon_threadsafe(_set_state)
+
+    def _dest_done(fut: asyncio.Future) -> None:
+        if fut.cancelled():
+            task.cancel()
+
+    dest.add_done_callback(_dest_done)
+    task.add_done_callback(_task_done)
+    return dest
 
 
 def _to_result_dict(
